@@ -161,10 +161,21 @@ ReqQueryOK(def, obs) ==
   /\ ObsQNames(obs.query) = QueryNames(def)
   /\ \A n \in QueryNames(def) : QValsOK(QueryOf(def, n), ObsQ(obs.query, n))
 
+\* A uri that carries its query inline, with no further parameters to merge in, is sent as it is written
+\* (the given query parameters, in the given order and spelling).
+RECURSIVE JoinWith(_, _)
+JoinWith(parts, sep) == IF parts = <<>> THEN "" ELSE IF Len(parts) = 1 THEN parts[1] ELSE parts[1] \o sep \o JoinWith(Tail(parts), sep)
+RECURSIVE PairStrs(_)
+PairStrs(list) == IF list = <<>> THEN <<>>
+                  ELSE [i \in 1..Len(Head(list).value) |-> Head(list).cname \o "=" \o Head(list).value[i]] \o PairStrs(Tail(list))
+InlineVerbatim(def, obs) ==
+  (def.inlineq # <<>> /\ def.rawq = <<>> /\ def.encq = <<>>) => obs.rawquery = JoinWith(PairStrs(def.inlineq), "&")
+
 AcceptReq(def, obs) ==
   /\ obs.method = MethodOf(def)
   /\ obs.path = def.path
   /\ ReqQueryOK(def, obs)
+  /\ InlineVerbatim(def, obs)
   /\ ReqHdrsOK(def, obs)
   /\ BodyOK(EncBody(def.body), obs.body)
 
@@ -172,6 +183,7 @@ WhyReq(def, obs) ==
   IF obs.method # MethodOf(def) THEN "method"
   ELSE IF obs.path # def.path THEN "path"
   ELSE IF ~ReqQueryOK(def, obs) THEN "query"
+  ELSE IF ~InlineVerbatim(def, obs) THEN "inline-query"
   ELSE IF ~ReqHdrsOK(def, obs) THEN "headers"
   ELSE IF ~BodyOK(EncBody(def.body), obs.body) THEN "body" ELSE "ok"
 
